@@ -26,11 +26,14 @@ RULE = ("corpus/C18 first (F5 witness, the narrow-signed-dtype wrap class, singl
         "the subnormal floor and up to 2^1000).  rank_order: shapes 0-d/1-D/2-D/3-D, nbins None or 1..300 (np.argsort of "
         "the histogram recorded by a proxy and replayed into the model, which re-checks each order against ITS histogram); "
         "median_of_labels: label arrays of every integer dtype incl. a label at the dtype's maximum, request list as list "
-        "or ndarray of any integer dtype, duplicate-free, absent labels first/middle/last; Indexes: counts of every dtype "
+        "or ndarray of any integer dtype, WITH repeats (adjacent, apart, repeated absent label, all the same; plus every request list of length <= 3 over {1,2,3} on every label image of length <= 3), absent labels first/middle/last; Indexes: counts of every dtype "
         "(8-bit maxima on one axis); pairwise_permutations: group labels of every integer dtype clustered at 0, at "
-        "iinfo.min, at iinfo.max, or (8/16-bit) spanning the full range.  Non-trivial: rank = a tie and two distinct values "
+        "iinfo.min, at iinfo.max, or (8/16-bit) spanning the full range, plus MANY-GROUP layouts: 100..256 distinct "
+        "int8/uint8/int16/uint16 labels (negative ones included), mostly singletons, multi-member groups preceded by "
+        "more singleton groups than the dtype's positive range (every g in 120..135 exhaustively), and two 16-bit "
+        "layouts with 32769 / 65535 groups before the first pair.  Non-trivial: rank = a tie and two distinct values "
         "(with nbins: the loop ran); median = an absent label and an even-count label; mode = a tie for the maximum or >= 3 "
-        "distinct values; Indexes = a zero-count object and >= 2 axes; pairs = a group of >= 3; all_pairs = n >= 3.")
+        "distinct values; Indexes = a zero-count object and >= 2 axes; pairs = a group of >= 3, or > 128 groups and a pair; all_pairs = n >= 3.")
 TRUSTED = [
     "modelled, not verified: NumPy primitives as list functions (fancy-index scatter with last write wins, boolean "
     "compaction, cumsum, bincount, lexsort = stable sort on (key1,key2,position), unique), float arithmetic on "
@@ -39,14 +42,18 @@ TRUSTED = [
     "np.argsort(hist) inside rank_order is observed through a module proxy (centrosome.rankorder.np) and replayed",
 ]
 ASSUMPTIONS = [
-    "rank_order: non-empty image without NaN, nbins >= 1 (nbins = 0 does not terminate in the code)",
-    "median_of_labels: labels/requested indices non-negative integers <= 65535 (tables of that size are allocated), "
-    "request list duplicate-free, labels non-empty, image and labels of equal shape; image values finite, integer "
-    "values |v| <= 2^52, float values on a common grid h*2^q with |h| < 2^21 so that a+b and (a+b)/2 are exact "
+    "rank_order: non-empty image without NaN; PRECONDITION nbins >= 1 (the postcondition 'at most nbins levels' is "
+    "unsatisfiable for nbins <= 0 and the code then loops forever; ruled outside the property)",
+    "median_of_labels: labels non-negative integers (a negative entry of the label image silently aliases the table "
+    "entry of another label), requested indices non-negative integers <= 65535 (tables of that size are allocated), "
+    "request list ARBITRARY (repeats allowed), labels non-empty, image and labels of equal shape; image values finite, "
+    "integer values |v| <= 2^52, float values on a common grid h*2^q with |h| < 2^21 so that a+b and (a+b)/2 are exact "
     "(at the smallest subnormal quantum: even h) - otherwise the result is the float rounding of the median",
     "Indexes: counts is a rectangular N x M array of non-negative integral values, N >= 1",
-    "pairwise_permutations: integer group labels with max-min < 2^16 (candidate finding C18-cand-2), and not "
-    "(float members and only singleton groups) (candidate finding C18-cand-1); both excluded classes are counted",
+    "pairwise_permutations: integer group labels of any of int8..int64/uint8..uint32 (uint64 ruled outside: NumPy "
+    "promotion) with max-min < 2^16 (wider spans are a resource question: the never-read table i_to_r; ruled outside); "
+    "member ids are indices: float members with only singleton groups (IndexError) ruled outside; both excluded "
+    "classes are counted.  Layouts with more than 256 groups of 16-bit labels are judged by a Python oracle only",
     "float values travel as order-preserving integer codes; -0.0 and +0.0 are the same value",
 ]
 EXHAUSTIVE = {"quick": False, "thorough": False}
@@ -276,6 +283,23 @@ def _gen_median(ctx, rng, dtype=None):
         idx = [nl + 6] + idx                    # leading absent label
     if big is not None and rng.rand() < 0.7:
         idx = idx + [big]
+    if idx and rng.rand() < 0.35:
+        # "all requested label lists": a label may be requested more than once
+        kind = rng.choice(["adjacent", "apart", "absent", "many", "all-same"])
+        if kind == "adjacent":
+            k = int(rng.randint(len(idx))); idx = idx[:k + 1] + [idx[k]] + idx[k + 1:]
+        elif kind == "apart":
+            idx = idx + [idx[int(rng.randint(len(idx)))]]
+            if rng.rand() < 0.5:
+                idx = [idx[-1]] + idx
+        elif kind == "absent":
+            a = nl + 7
+            k = int(rng.randint(len(idx) + 1)); idx = idx[:k] + [a] + idx[k:] + [a]
+        elif kind == "many":
+            idx = [idx[int(rng.randint(len(idx)))] for _ in range(len(idx) + 3)]
+        else:
+            idx = [idx[0]] * int(rng.randint(2, 5))
+        ctx.count("median:repeated request (" + kind + ")")
     coded, nz = False, []
     if dtype in _FW and rng.rand() < 0.3:
         # "selection" class: arbitrary floats of the dtype (extremes, subnormals, +-inf, +-0.0) as order-preserving
@@ -319,7 +343,42 @@ def _gen_indexes(ctx, rng, dtype=None):
     return {"fn": "indexes", "dtype": dtype, "counts": counts.tolist(), "oned": oned, "layout": str(rng.choice(LAYOUTS))}
 
 
+def _many_groups(rng, idtype, ngroups, big=False):
+    """group labels of a narrow dtype with MANY groups: `ngroups` distinct labels (negative ones included for signed
+    dtypes), most of them singletons, a few groups of 2-3 members placed so that at least one multi-member group is
+    preceded (in label order) by a long run of singleton groups - longer than the dtype's positive range when
+    ngroups allows - and the rows shuffled.  Returns (i, j) with j a permutation of 0..n-1."""
+    ii = np.iinfo(idtype)
+    lo, hi = int(ii.min), int(ii.max)
+    span = hi - lo + 1
+    ngroups = min(ngroups, span)
+    start = lo if rng.rand() < 0.7 else int(rng.randint(lo, hi - ngroups + 2))
+    labs = list(range(start, start + ngroups))
+    multi = {ngroups - 1 - int(rng.randint(0, min(3, ngroups)))}
+    if rng.rand() < 0.5:
+        multi.add(int(rng.randint(0, ngroups)))
+    if rng.rand() < 0.3:
+        multi.add(0)
+    i = []
+    for q, l in enumerate(labs):
+        i += [l] * (int(rng.randint(2, 4)) if q in multi else 1)
+    perm = rng.permutation(len(i))
+    i = [i[q] for q in perm]
+    return i, [int(x) for x in rng.permutation(len(i))]
+
+
+def _gen_pairs_many(ctx, rng):
+    idtype = str(rng.choice(["int8", "int8", "uint8", "int16", "uint16", "int32"]))
+    ng = int(rng.choice([100, 127, 128, 129, 130, 131, 160, 200, 255, 256]))
+    i, j = _many_groups(rng, idtype, ng)
+    ctx.count("pairs:many-groups")
+    return {"fn": "pairs", "idtype": idtype, "i": i, "jdtype": "int64", "j": j, "jnz": [],
+            "layout": str(rng.choice(["C", "strided", "rev"]))}
+
+
 def _gen_pairs(ctx, rng, dtype=None):
+    if dtype is None and rng.rand() < 0.06:
+        return _gen_pairs_many(ctx, rng)
     n = int(rng.choice([0, 1, 2, 3, 4, 6, 9, 14, 22]))
     idtype = str(rng.choice(INT_DTYPES))
     jdtype = dtype or str(rng.choice(ALL_DTYPES))
@@ -329,7 +388,7 @@ def _gen_pairs(ctx, rng, dtype=None):
     where = rng.choice(["zero", "zero", "hi", "lo", "full"])
     if where == "full" and ii.bits > 16:
         # the code allocates (and never reads) a table of max(i)-min(i)+1 entries: spans above 2^16 are excluded
-        ctx.count("excluded:pairs group-label span > 2^16 (dead i_to_r table; see findings/C18.json)")
+        ctx.count("excluded:pairs group-label span > 2^16 (resource: dead i_to_r table; ruled outside)")
         where = "hi"
     if where == "zero":
         base = max(lo, -3 if rng.rand() < 0.3 else 0)
@@ -348,8 +407,8 @@ def _gen_pairs(ctx, rng, dtype=None):
     else:
         j, jnz = _gen_vals(rng, jdtype, n)
     if jdtype in _FW and n >= 1 and len(set(i)) == n:
-        # candidate finding C18-cand-1 (findings/C18.json): float members + only singleton groups raise IndexError
-        ctx.count("excluded:pairs float members with only singleton groups (candidate finding C18-cand-1)")
+        # float members + only singleton groups raise IndexError: ruled outside (member ids are indices)
+        ctx.count("excluded:pairs float members with only singleton groups (ruled outside)")
         if n >= 2:
             i[1] = i[0]
         else:
@@ -421,12 +480,42 @@ def _exhaustive(ctx):
                 cases.append({"fn": "median", "dtype": "float64", "h": [3 * k * k - 7 * k for k in range(n)], "q": -3,
                               "ldtype": "int64", "labels": list(lab), "indices": idx, "shape": None, "layout": "C",
                               "llayout": "C"})
+    # every label image of length <= 3 over {1,2} x every request list of length <= 3 over {1,2,3} (repeats!)
+    for n in range(1, 4):
+        for lab in itertools.product((1, 2), repeat=n):
+            for m in range(1, 4):
+                for idx in itertools.product((1, 2, 3), repeat=m):
+                    if len(set(idx)) < len(idx):
+                        cases.append({"fn": "median", "dtype": "float64", "h": [5 * k * k - 9 * k for k in range(n)],
+                                      "q": -2, "ldtype": "int64", "labels": list(lab), "indices": list(idx),
+                                      "shape": None, "layout": "C", "llayout": "C"})
+    # int8 / uint8 group labels: g singleton groups (labels from iinfo.min up) then one pair, for every g around
+    # the dtype's positive range (the rank gap in front of the first pair is g)
+    for dt in ("int8", "uint8", "int16"):
+        lo = int(np.iinfo(dt).min)
+        for g in ([1, 2, 126, 127, 128, 129, 130, 200, 254, 255] if quick else list(range(120, 136)) + [1, 2, 64, 200, 250, 254, 255]):
+            i = [lo + q for q in range(g)] + [lo + g, lo + g]
+            cases.append({"fn": "pairs", "idtype": dt, "i": i, "jdtype": "int64", "j": list(range(len(i))), "jnz": [],
+                          "layout": "C"})
     # index.all_pairs(n) for every n up to 12 (40), n given as int / numpy integer
     for n in range(0, 13 if quick else 41):
         cases.append({"fn": "allpairs", "n": n, "ntype": ["int", "int64", "uint8", "int32"][n % 4]})
     for c in cases:
         ctx.count("exhaustive-family cases")
     return cases
+
+
+def _big_pairs(ctx):
+    """16-bit group labels with more groups than int16's positive range before the first pair: far beyond what the
+    unary-nat Coq model can run, so these two layouts are judged by a direct Python oracle only (flag "big")"""
+    res = []
+    for dt, g in (("int16", 32769), ("uint16", 65535)):
+        lo = int(np.iinfo(dt).min)
+        i = [lo + q for q in range(g)] + [lo + g, lo + g]
+        res.append({"fn": "pairs", "idtype": dt, "i": i, "jdtype": "int64", "j": list(range(len(i))), "jnz": [],
+                    "layout": "C", "big": True})
+        ctx.count("pairs:big 16-bit layouts (Python oracle only)")
+    return res
 
 
 def generate(ctx):
@@ -439,6 +528,7 @@ def generate(ctx):
             # the first cases of every function walk through every dtype it accepts
             dt = ALL_DTYPES[t % len(ALL_DTYPES)] if t < 40 * len(ALL_DTYPES) else None
             cases.append(g(ctx, rng, dt))
+    cases += _big_pairs(ctx)
     for c in cases:
         ctx.count(c["fn"])
         ctx.count("dtype:" + c.get("dtype", c.get("jdtype", c.get("ntype", "?"))))
@@ -594,7 +684,7 @@ def _model_arg(k, c, outs):
     if fn == "indexes":
         return ("entry_indexes", c["counts"])
     if fn == "pairs":
-        return ("entry_pairs", [c["i"], c["j"]])
+        return None if c.get("big") else ("entry_pairs", [c["i"], c["j"]])
     if fn == "allpairs":
         return ("entry_all_pairs", c["n"])
 
@@ -625,6 +715,8 @@ def compare(case, out, m):
         return "implementation raised/crashed on a valid input: %s" % (str(out)[:300],)
     if isinstance(m, dict):
         return "model error: %s" % (m,)
+    if m is None and case.get("big"):
+        return None
     exp = _impl_sx(case, out)
     if case["fn"] == "rank" and case["nbins"] is not None and not out["orders"] and m != exp:
         # the merging loop ran but no np.argsort call was observed: the tie order of the implementation's sort is
@@ -659,7 +751,7 @@ def _check_arg(k, c, o):
     if fn == "indexes":
         return ("entry_indexes_ref", c["counts"])
     if fn == "pairs":
-        return ("entry_pairs_all", [c["i"], c["j"]])
+        return None if c.get("big") else ("entry_pairs_all", [c["i"], c["j"]])
     if fn == "allpairs":
         return ("entry_all_pairs_ref", c["n"])
 
@@ -715,6 +807,15 @@ def check(ctx, cases, outs):
             elif any(sorted(map(tuple, o["p"][:m * (m - 1)])) != [(a, b) for a in range(m) for b in range(m) if a != b]
                      for m in range(n + 1)):
                 res[k] = "all_pairs(%d): the first m(m-1) rows are not the pairs of the first m things" % n
+        elif fn == "pairs" and c.get("big"):
+            grp = {}
+            for a, b in sorted(zip(c["i"], c["j"])):
+                grp.setdefault(a, []).append(b)
+            exp = sorted([g, min(a, b), max(a, b)] for g, ms in grp.items() for x, a in enumerate(ms) for b in ms[x + 1:])
+            got = sorted([g, min(a, b), max(a, b)] for g, a, b in zip(o["di"], o["d1"], o["d2"]))
+            if got != exp:
+                res[k] = ("pairwise_permutations (%s labels, %d groups): not every within-group pair exactly once: got %s "
+                          "expected %s" % (c["idtype"], len(grp), str(got)[:120], str(exp)[:120]))
         elif fn == "pairs":
             got = sorted([g, min(a, b), max(a, b)] for g, a, b in zip(o["di"], o["d1"], o["d2"]))
             if not (len(o["di"]) == len(o["d1"]) == len(o["d2"])):
@@ -743,7 +844,9 @@ def nontrivial(case, out):
         c = np.array(case["counts"])
         return c.ndim == 2 and c.shape[0] >= 2 and c.shape[1] >= 1 and bool((c.prod(0) == 0).any()) and out["length"] > 0
     if fn == "pairs":
-        return any(case["i"].count(g) >= 3 for g in set(case["i"]))
+        import collections
+        cnt = collections.Counter(case["i"])
+        return max(cnt.values() or [0]) >= 3 or (len(cnt) > 128 and max(cnt.values()) >= 2)
     if fn == "allpairs":
         return case["n"] >= 3
     return False
@@ -759,6 +862,8 @@ def kernel_crosscheck(ctx, cases, outs):
         if _bad(outs[k]) or (c["fn"] == "median" and max(c["labels"] + c["indices"] + [0]) > 300):
             continue
         e = _model_arg(k, c, outs)
+        if e is None:
+            continue
         size = len(json.dumps(c))
         if e[0] in want and size < 400 and len(picked.setdefault(e[0], [])) < want[e[0]]:
             picked[e[0]].append((k, e[1]))
@@ -860,8 +965,15 @@ def shrink_candidates(case):
         if case["n"] > 0:
             d = dict(c); d["n"] = case["n"] - 1
             yield d
+    elif fn == "pairs" and case.get("big"):
+        return
     elif fn == "pairs":
         n = len(case["i"])
+        if n > 12:
+            for lo, hi in ((0, n // 2), (n // 2, n), (n // 4, n), (0, 3 * n // 4)):
+                d = dict(c); d["i"] = case["i"][lo:hi]; d["j"] = case["j"][lo:hi]
+                d["jnz"] = [q - lo for q in case["jnz"] if lo <= q < hi]
+                yield d
         for k in range(n):
             d = dict(c); d["i"] = case["i"][:k] + case["i"][k + 1:]; d["j"] = case["j"][:k] + case["j"][k + 1:]
             d["jnz"] = [q - (1 if q > k else 0) for q in case["jnz"] if q != k]
